@@ -4,13 +4,15 @@
 // tier: quick
 // name: RectClipLinesPaths64.vertices-in-rect RectClipLinesPaths64.vertices-on-line RectClipLinesPaths64.segments-kept RectClipLinesPaths64.coverage
 // what: (vertices) every output vertex lies within the rectangle (at most 1 unit outside) and within 1 unit of an input segment; (segments-kept) a two-point segment with both end points strictly inside the rectangle is returned as it is, and a polyline is never closed up (an output path never has more vertices inside the rectangle than its input line has vertices plus crossings); (coverage) the eighth-points of every input segment that are more than 2 units from the rectangle boundary lie within 1 unit per coordinate of an output segment exactly when they are inside the rectangle (zero-length segments are skipped)
-// bound: every polyline of 2..3 points (quick) / 2..4 points (thorough) over the 5x5 grid {0,8,..,32}^2 against the rectangles [8,24]^2, [4,20]x[12,28] and [0,32]x[8,16], exhaustive
+// bound: every polyline of 2..3 points (quick) / 2..4 points (thorough) over the 5x5 grid {0,8,..,32}^2 against the rectangles [8,24]^2, [4,20]x[12,28] and [0,32]x[8,16], exhaustive; plus 50000 (quick) / 1000000 (thorough) pseudo-random polylines of 4..9 points on the 6x6 grid {0,8,..,40}^2 against four rectangles, seeded by VERIF_SEED (sampled, not exhaustive)
 
 package go_clipper2
 
 import (
 	"fmt"
+	"math/rand"
 	"os"
+	"strconv"
 	"testing"
 )
 
@@ -55,9 +57,23 @@ func TestVerifBoundedRectClipLines(t *testing.T) {
 		}
 	}
 	var rec func(p Path64)
+	var checkOne func(r Rect64, p Path64)
 	rec = func(p Path64) {
 		if len(p) >= 2 {
 			for _, r := range rects {
+				checkOne(r, p)
+			}
+		}
+		if len(p) == maxN {
+			return
+		}
+		for _, g := range grid {
+			rec(append(append(Path64{}, p...), g))
+		}
+	}
+	checkOne = func(r Rect64, p Path64) {
+		{
+			{
 				cases++
 				out := RectClipLinesPaths64(r, Paths64{append(Path64{}, p...)})
 				bad := ""
@@ -128,14 +144,23 @@ func TestVerifBoundedRectClipLines(t *testing.T) {
 				}
 			}
 		}
-		if len(p) == maxN {
-			return
-		}
-		for _, g := range grid {
-			rec(append(append(Path64{}, p...), g))
-		}
 	}
 	rec(Path64{})
+	// pseudo-random longer polylines on a finer grid (not exhaustive)
+	nRand := 50000
+	if os.Getenv("VERIF_TIER") == "thorough" {
+		nRand = 1000000
+	}
+	seed, _ := strconv.Atoi(os.Getenv("VERIF_SEED"))
+	rng := rand.New(rand.NewSource(int64(seed) + 11))
+	rects2 := []Rect64{{8, 8, 24, 24}, {4, 12, 20, 28}, {0, 8, 32, 16}, {12, 4, 20, 36}}
+	for it := 0; it < nRand; it++ {
+		p := make(Path64, 4+rng.Intn(6))
+		for i := range p {
+			p[i] = Point64{int64(rng.Intn(6)) * 8, int64(rng.Intn(6)) * 8}
+		}
+		checkOne(rects2[rng.Intn(len(rects2))], p)
+	}
 	for _, w := range []string{"vertices-in-rect", "vertices-on-line", "segments-kept", "coverage"} {
 		fmt.Printf("VERIF-BOUNDED RectClipLinesPaths64.%s cases=%d failures=%d\n", w, cases, fails[w])
 	}
